@@ -1,120 +1,80 @@
-(** C11: for a name without white space, double quote or backslash the
-    server-side unquoting (strings.Trim(arg, dquote) of CREATE/DELETE/RENAME/
-    SELECT/APPEND, [ParseQuotedString] of STATUS/LIST/LSUB and the quote
-    stripping of SUBSCRIBE/UNSUBSCRIBE) returns exactly the name the client
-    wrote, for the atom and for the quoted form. *)
-From Coq Require Import String Ascii List Bool Arith ZArith Lia.
-From Raven Require Import Base.GoStr Base.GoStrFacts Base.Like Model.Pattern Model.Names Spec.Names.
+(** C11: what the server takes as a mailbox name is the name the client wrote,
+    for EVERY astring (atom or quoted string, blanks, double quotes and
+    backslashes included): the line is cut by utils.SplitCommandLine and the
+    argument read by utils.ParseQuotedString (both modelled and proved in
+    Model/CmdTokenizer.v, Proof/CmdTokenizer.v -- property C04); this file
+    connects them with C11's reader [decode_astring]. *)
+From Coq Require Import String Ascii List Bool Arith NArith Lia.
+From Raven Require Import Base.GoStr Base.GoStrFacts Model.Pattern Model.CmdTokenizer Spec.CmdArgs Proof.CmdTokenizer
+  Model.Names Spec.Names Proof.NamesQuote.
 Import ListNotations.
 
-Definition no_q (n : str) : bool := negb (existsb (fun c => Ascii.eqb c dq || Ascii.eqb c bsl) n).
-
-Lemma unescape_id s : forall n, unescape s = Some n -> no_q n = true -> s = n.
+(** a string the strict reader accepts is the escaped form of what it returns *)
+Lemma strict_inv k : forall s n, length s <= k -> unescape_strict s = Some n -> s = flat_map escf n.
 Proof.
-  induction s as [|c s IH]; intros n H Hq; simpl in H.
-  - now injection H as <-.
-  - destruct (Ascii.eqb c bsl) eqn:Eb.
-    + destruct s as [|d s']; [discriminate|].
-      destruct (Ascii.eqb d dq || Ascii.eqb d bsl) eqn:Ed; [|discriminate].
-      destruct (unescape s') as [n'|]; [|discriminate]. injection H as <-.
-      unfold no_q in Hq. simpl in Hq. rewrite Ed in Hq. discriminate.
-    + destruct (Ascii.eqb c dq) eqn:Eq; [discriminate|].
-      destruct (unescape s) as [n'|] eqn:Eu; [|discriminate]. injection H as <-.
-      f_equal. apply IH; [reflexivity|].
-      unfold no_q in *. simpl in Hq. rewrite Eq, Eb in Hq. exact Hq.
+  induction k as [|k IH]; intros s n Hl H.
+  - destruct s; [|simpl in Hl; lia]. simpl in H. now injection H as <-.
+  - destruct s as [|c s]; [simpl in H; now injection H as <-|].
+    cbn [unescape_strict] in H. unfold bsl in H. change dq with DQUOTE in H.
+    destruct (Ascii.eqb c BSLASH) eqn:Eb.
+    + apply Ascii.eqb_eq in Eb. subst c. destruct s as [|d s2]; [discriminate|].
+      destruct (Ascii.eqb d DQUOTE || Ascii.eqb d BSLASH) eqn:Ed; [|discriminate].
+      destruct (unescape_strict s2) as [n2|] eqn:E2; [|discriminate]. injection H as <-.
+      cbn [flat_map]. unfold escf at 1. rewrite Ed. cbn [app]. f_equal. f_equal.
+      apply IH; [simpl in Hl; lia | exact E2].
+    + destruct (Ascii.eqb c DQUOTE) eqn:Eq; [discriminate|].
+      destruct (unescape_strict s) as [n2|] eqn:E2; [|discriminate]. injection H as <-.
+      cbn [flat_map]. unfold escf at 1. rewrite Eq, Eb. cbn [orb app]. f_equal.
+      apply IH; [simpl in Hl; lia | exact E2].
 Qed.
 
-Notation isq := (in_set [dq]).
-
-Lemma isq_eq c : isq c = Ascii.eqb c dq.
-Proof. unfold in_set. simpl. apply orb_false_r. Qed.
-
-Lemma drop_while_none f s : forallb (fun c => negb (f c)) s = true -> drop_while f s = s.
-Proof. destruct s as [|c s]; simpl; [reflexivity|]. intros H. apply andb_true_iff in H as [H _]. now rewrite (proj1 (negb_true_iff _) H). Qed.
-
-Lemma forallb_rev {A} (f : A -> bool) l : forallb f (rev l) = forallb f l.
+Lemma astring_atom_c c : astring_char c = true -> atom_c c = true.
 Proof.
-  induction l as [|a l IH]; simpl; [reflexivity|].
-  rewrite forallb_app, IH. simpl. rewrite andb_true_r. apply andb_comm.
+  revert c. intros c. generalize (fun H => ascii_forall (fun c => implb (astring_char c) (atom_c c)) H c).
+  intros K. assert (T : implb (astring_char c) (atom_c c) = true) by (apply K; vm_compute; reflexivity).
+  intros H. rewrite H in T. exact T.
 Qed.
 
-Lemma trim_none s : forallb (fun c => negb (isq c)) s = true -> trim s [dq] = s.
-Proof.
-  intros H. unfold trim, trim_f, trim_right_f, trim_left_f.
-  rewrite (drop_while_none isq s H).
-  rewrite drop_while_none by (now rewrite forallb_rev). apply rev_involutive.
-Qed.
-
-Lemma trim_quoted n : forallb (fun c => negb (isq c)) n = true -> trim (dq :: n ++ [dq]) [dq] = n.
-Proof.
-  intros H. unfold trim, trim_f, trim_right_f, trim_left_f.
-  cbn [drop_while]. replace (isq dq) with true by (symmetry; rewrite isq_eq; apply Ascii.eqb_refl).
-  destruct n as [|c n].
-  - simpl. replace (isq dq) with true by (symmetry; rewrite isq_eq; apply Ascii.eqb_refl). reflexivity.
-  - assert (Hc : isq c = false).
-    { simpl in H. apply andb_true_iff in H as [H _]. now apply negb_true_iff. }
-    simpl app. cbn [drop_while]. rewrite Hc.
-    change (c :: n ++ [dq]) with ((c :: n) ++ [dq]). rewrite rev_app_distr. simpl rev at 1. cbn [app drop_while].
-    replace (isq dq) with true by (symmetry; rewrite isq_eq; apply Ascii.eqb_refl).
-    change (rev n ++ [c]) with (rev (c :: n)).
-    rewrite drop_while_none by (now rewrite forallb_rev). apply rev_involutive.
-Qed.
-
-Lemma no_q_isq n : no_q n = true -> forallb (fun c => negb (isq c)) n = true.
-Proof.
-  unfold no_q. intros H. apply negb_true_iff in H. apply forallb_forall. intros c Hc.
-  rewrite isq_eq. apply negb_true_iff. destruct (Ascii.eqb c dq) eqn:E; [|reflexivity].
-  exfalso. assert (T : existsb (fun c => Ascii.eqb c dq || Ascii.eqb c bsl) n = true).
-  { apply existsb_exists. exists c. rewrite E. auto. }
-  congruence.
-Qed.
-
-Lemma astring_no_dq raw : forallb astring_char raw = true -> no_q raw = true.
-Proof.
-  unfold no_q. induction raw as [|c r IH]; simpl; [reflexivity|].
-  intros H. apply andb_true_iff in H as [Hc H]. rewrite negb_orb, IH by exact H. rewrite andb_true_r.
-  unfold astring_char in Hc. apply andb_true_iff in Hc as [_ Hc]. apply negb_true_iff in Hc.
-  destruct (Ascii.eqb c dq) eqn:E1.
-  { apply Ascii.eqb_eq in E1. subst c. vm_compute in Hc. discriminate. }
-  destruct (Ascii.eqb c bsl) eqn:E2.
-  { apply Ascii.eqb_eq in E2. subst c. vm_compute in Hc. discriminate. }
-  reflexivity.
-Qed.
-
-(** the shape of a valid raw argument whose decoded name has no quote/backslash *)
-Lemma decode_shape raw n :
-  decode_astring raw = Some n -> no_q n = true ->
-  (raw = n /\ n <> [] /\ forallb astring_char n = true) \/ raw = dq :: n ++ [dq].
+(** every astring is an atom or QuoteString's form of the name it denotes *)
+Lemma decode_render raw n :
+  decode_astring raw = Some n -> exists f, arg_ok (f, n) = true /\ raw = render_arg f n.
 Proof.
   unfold decode_astring. destruct raw as [|c r]; [discriminate|].
   destruct (Ascii.eqb c dq) eqn:Ec.
   - apply Ascii.eqb_eq in Ec. subst c.
     destruct (rev r) as [|e mid] eqn:Er; [discriminate|].
     destruct (Ascii.eqb e dq) eqn:Ee; [|discriminate]. apply Ascii.eqb_eq in Ee. subst e.
-    intros H Hq. right. apply unescape_id in H; [|exact Hq]. subst n.
-    f_equal. rewrite <- (rev_involutive r), Er. reflexivity.
+    intros H. exists QuotedForm. split; [reflexivity|].
+    apply (strict_inv (length (rev mid))) in H; [|lia].
+    cbn [render_arg]. rewrite quote_string_esc, <- H. change DQUOTE with dq. f_equal.
+    rewrite <- (rev_involutive r), Er. reflexivity.
   - destruct (forallb astring_char (c :: r)) eqn:Ea; [|discriminate].
-    intros H Hq. injection H as <-. left. repeat split; [discriminate|exact Ea].
+    intros H. injection H as <-. exists AtomForm. split; [|reflexivity].
+    unfold arg_ok, atom_ok. cbn [fst snd]. rewrite andb_true_iff. split; [|reflexivity].
+    rewrite forallb_forall in *. intros x Hx. apply astring_atom_c. now apply Ea.
 Qed.
 
-Theorem unquote_is_decode raw n :
-  decode_astring raw = Some n -> no_q n = true ->
-  trim raw [dq] = n /\ unquote1 raw = n.
+(** utils.ParseQuotedString returns the name the client wrote *)
+Theorem arg_exact raw n : decode_astring raw = Some n -> parse_quoted raw = n.
+Proof. intros H. destruct (decode_render raw n H) as (f & Hok & ->). now apply parse_render. Qed.
+
+(** utils.SplitCommandLine hands that argument to the handler in one piece *)
+Theorem line_exact1 (tag word raw n : str) :
+  atom_ok tag = true -> atom_ok word = true -> decode_astring raw = Some n ->
+  split_command_line (tag ++ " "%char :: word ++ " "%char :: raw) = [tag; word; raw].
 Proof.
-  intros H Hq. destruct (decode_shape raw n H Hq) as [(E & Hne & Ha)|E]; subst raw.
-  - split.
-    + apply trim_none. now apply no_q_isq.
-    + destruct n as [|c n]; [congruence|]. unfold unquote1.
-      assert (E : Ascii.eqb c dq = false).
-      { pose proof (astring_no_dq _ Ha) as K. unfold no_q in K. simpl in K.
-        rewrite negb_orb in K. apply andb_true_iff in K as [K _]. rewrite negb_orb in K.
-        apply andb_true_iff in K as [K _]. now apply negb_true_iff. }
-      now rewrite E.
-  - split.
-    + apply trim_quoted. now apply no_q_isq.
-    + unfold unquote1. rewrite Ascii.eqb_refl.
-      replace (2 <=? length (dq :: n ++ [dq])) with true
-        by (symmetry; apply Nat.leb_le; simpl; rewrite app_length; simpl; lia).
-      change (dq :: n ++ [dq]) with ((dq :: n) ++ [dq]). rewrite last_last, Ascii.eqb_refl. simpl.
-      apply removelast_last.
+  intros Ht Hw H. destruct (decode_render raw n H) as (f & Hok & ->).
+  apply (split_roundtrip [(AtomForm, tag); (AtomForm, word); (f, n)]).
+  cbn [forallb]. unfold arg_ok at 1 2. cbn [fst snd]. now rewrite Ht, Hw, Hok.
+Qed.
+
+Theorem line_exact2 (tag word raw1 n1 raw2 n2 : str) :
+  atom_ok tag = true -> atom_ok word = true ->
+  decode_astring raw1 = Some n1 -> decode_astring raw2 = Some n2 ->
+  split_command_line (tag ++ " "%char :: word ++ " "%char :: raw1 ++ " "%char :: raw2) = [tag; word; raw1; raw2].
+Proof.
+  intros Ht Hw H1 H2. destruct (decode_render raw1 n1 H1) as (f1 & Hok1 & ->).
+  destruct (decode_render raw2 n2 H2) as (f2 & Hok2 & ->).
+  apply (split_roundtrip [(AtomForm, tag); (AtomForm, word); (f1, n1); (f2, n2)]).
+  cbn [forallb]. unfold arg_ok at 1 2. cbn [fst snd]. now rewrite Ht, Hw, Hok1, Hok2.
 Qed.
